@@ -92,7 +92,7 @@ fn main() {
                     sched.refresh_timeouts(&mut cl);
                 }
                 if lease_rounds > 0 {
-                    sched.stabilize(&mut cl, &mut evs, stab);
+                    sched.stabilize(&mut cl, &mut evs, stab, "zz");
                     write_events(&mut w, &evs, k + 1);
                     // drop whatever is still in flight, then check the premises of the scenario
                     cl.net.clear();
@@ -106,10 +106,32 @@ fn main() {
                         write_events(&mut w, &evs2, k + 1);
                     }
                 } else if stab > 0 {
-                    let probe = sched.stabilize(&mut cl, &mut evs, stab);
+                    let probe = sched.stabilize(&mut cl, &mut evs, stab, "zz");
                     let v = json!({"ev": "StableEnd", "run": k + 1, "n": 0, "seq": 0, "a": {"probe": probe}});
                     write_events(&mut w, &evs, k + 1);
                     writeln!(w, "{}", v).unwrap();
+                    total += evs.len();
+                    evs.clear();
+                    // leadership rotation: an election may start on any member at any time (a timeout firing is
+                    // not a fault); whatever replication state that member kept from earlier terms, the cluster
+                    // must settle again and commit a fresh entry
+                    if probe {
+                        let ids = cl.cfg.ids.clone();
+                        for (j, n) in ids.iter().enumerate() {
+                            if !cl.is_up(*n) {
+                                continue;
+                            }
+                            if let Some(e) = cl.apply_choice(&Choice::Campaign { n: *n }) {
+                                evs.push(e);
+                            }
+                            let probe = sched.stabilize(&mut cl, &mut evs, stab, &format!("z{}", j));
+                            let v = json!({"ev": "StableEnd", "run": k + 1, "n": 0, "seq": 0, "a": {"probe": probe}});
+                            write_events(&mut w, &evs, k + 1);
+                            writeln!(w, "{}", v).unwrap();
+                            total += evs.len();
+                            evs.clear();
+                        }
+                    }
                 } else {
                     write_events(&mut w, &evs, k + 1);
                 }
